@@ -419,7 +419,7 @@ def _de_inner(I, helper_ty, meth):
 def _turbofish(ci):
     last = ci.path[-1] if ci.path else ''
     if last.startswith('<') and not last.startswith('<impl'):
-        return [a.strip() for a in split_top(last[1:-1])]
+        return [a.strip() for a in split_top(last[1:-1]) if not a.strip().startswith("'")]
     return []
 
 
@@ -707,3 +707,39 @@ def ignore_index(I, field_ty):
     fn = _de_inner(I, re.sub(r'__Field\b', '__FieldVisitor', _de_norm(field_ty)), 'visit_str')
     ks = [int(x) for x in re.findall(r'__Field::__field(\d+)', '\n'.join(l for ls in fn.raw.values() for l in ls))]
     return max(ks) + 1 if ks else 0
+
+
+# ====================================================================== ron entry points: documents as opaque texts
+# `ron::ser::to_string_pretty(&v, cfg)` / `ron::to_string(&v)` give a text `<ron-doc#N>` that stands for the document
+# ron prints from v's serde tree; `ron::from_str::<T>` / `ron::de::from_str::<T>` on such a text replays the tree into
+# T's Deserialize impl.  Any other text handed to the parser is unsupported (malformed documents are outside).
+RON_DOCS = []
+
+
+def emit_doc(I, v, ty=None):
+    RON_DOCS.append(ser_value(I, v, ty))
+    return '<ron-doc#%d>' % (len(RON_DOCS) - 1)
+
+
+@model('ser::to_string_pretty', 'ron::to_string', 'ser::to_string')
+def _ron_to_string(I, ci, v, *cfg):
+    tf = _turbofish(ci)
+    return ok(StringObj([ord(c) for c in emit_doc(I, v, tf[0] if tf else None)]))
+
+
+@model('ron::from_str', 'de::from_str')
+def _ron_from_str(I, ci, s):
+    cs = chars_of(s)
+    if not all(isinstance(c, int) for c in cs):
+        raise Unsupported('ron::from_str on a symbolic text')
+    m = re.match(r'<ron-doc#(\d+)>$', ''.join(chr(c) for c in cs))
+    if not m:
+        raise Unsupported('ron::from_str on a text that is not an emitted document')
+    tf = _turbofish(ci)
+    if not tf:
+        raise Unsupported('ron::from_str without a target type')
+    return de_value(I, tf[0], RON_DOCS[int(m.group(1))])
+
+
+import models_std as _MSTD
+_MSTD.DEFAULTS['PrettyConfig'] = lambda: Opaque('PrettyConfig', None)
